@@ -81,11 +81,19 @@ package connection
 //@   ghost dials int = 0
 //@   ghost ups int = 0
 //@   ghost ws *websocket.Conn = nil
+//@   ghost isUp bool = false
+//@   ghost asked int = 0
+//@   call websocket.IsWebSocketUpgrade
+//@     assert[C15:bridge-test-on-this-request] arg0 == old(r) && asked == 0
+//@     do isUp = ret0
+//@     do asked = asked + 1
 //@   call (http.Handler).ServeHTTP
 //@     assert[C15:other-requests-pass-through-untouched] passed == 0 && ups == 0 && arg0 == passthroughHandler && arg1 == old(w) && arg2 == old(r)
+//@     assert[C15:only-non-bridge-requests-pass-through] asked == 1 && (!isUp || old(r.URL.Path) != "/tcp-over-websocket-bridge/35218cb7-1201-4940-89e8-48d8f03fed96")
 //@     do passed = passed + 1
 //@   call (*websocket.Upgrader).Upgrade
 //@     assert[C15:upgrade-this-request-once] ups == 0 && passed == 0 && arg1 == old(w)
+//@     assert[C15:only-bridge-requests-are-upgraded] asked == 1 && isUp && old(r.URL.Path) == "/tcp-over-websocket-bridge/35218cb7-1201-4940-89e8-48d8f03fed96"
 //@     do ups = ups + 1
 //@     do ws = ret0
 //@     do upOK = ret1 == nil
